@@ -169,8 +169,13 @@ func whereCase(rp Replay) (*Case, error) {
 			if guarded(func() { b = f(&le) }) {
 				rs = append(rs, "WPanic")
 				np++
-				if v.evaluable {
-					fail("where-panic", fmt.Sprintf("%q panics on event %+v", rp.Text, e))
+				// a filter that was accepted must be evaluable on every event, whatever the expression is
+				if viol != nil && strings.HasSuffix(viol.Class, "-accepted") {
+					if !strings.Contains(viol.Detail, "; evaluating the accepted filter panics") {
+						viol.Detail += fmt.Sprintf("; evaluating the accepted filter panics (nil function in the closure?) on event %+v", e)
+					}
+				} else {
+					fail("where-panic", fmt.Sprintf("%q is accepted and panics on event %+v", rp.Text, e))
 				}
 				continue
 			}
@@ -552,6 +557,14 @@ func main() {
 				return err
 			}
 		}
+		// ---- reject: every kind of unevaluable condition at every position of OR/AND chains and nested/negated groups
+		rejWhere, rejQuery := rejectCases()
+		for _, rp := range append(rejWhere, rejQuery...) {
+			if err := run(rp); err != nil {
+				return err
+			}
+		}
+		c.Note("reject stream", fmt.Sprintf("%d unevaluable conditions x %d shapes (+%d controls) as where cases, %d of them end to end", len(rejectBad), len(rejectShapes), len(rejectShapes), len(rejQuery)))
 		base := int64(1552307695000000000)
 		// ---- where: structured stream
 		for i := 0; i < c.N(520); i++ {
